@@ -1,0 +1,77 @@
+//go:build verif
+
+package dastard
+
+// Hooks for the C16 check (status replay, configuration persistence, crash safety) of the
+// out-of-tree verification harness. Compiled only with `-tags verif`.
+
+import (
+	"encoding/json"
+	"os"
+	"sync"
+)
+
+var verifC16 struct {
+	sync.Mutex
+	site     string // crash when this site is reached ...
+	nth      int    // ... for the nth time (counted down)
+	capture  bool
+	captured [][2]string
+}
+
+// VerifC16SetCrashPoint makes the process exit (status 77, no deferred functions: a kill) the nth
+// time saveState reaches the named step boundary.
+func VerifC16SetCrashPoint(site string, nth int) {
+	verifC16.Lock()
+	verifC16.site, verifC16.nth = site, nth
+	verifC16.Unlock()
+}
+
+func verifC16Point(site string) {
+	verifC16.Lock()
+	defer verifC16.Unlock()
+	if verifC16.nth > 0 && site == verifC16.site {
+		verifC16.nth--
+		if verifC16.nth == 0 {
+			os.Exit(77)
+		}
+	}
+}
+
+// VerifC16SaveState is the real saveState.
+func VerifC16SaveState(lastMessages map[string]interface{}) { saveState(lastMessages) }
+
+// VerifC16SendUpdate queues one status update exactly as the servers do.
+func VerifC16SendUpdate(tag string, state interface{}) {
+	clientMessageChan <- ClientUpdate{tag: tag, state: state}
+}
+
+// VerifC16StartCapture starts a reader of the client-update channel that records (tag, JSON text)
+// of every update instead of publishing it (used to observe what a start-up restores).
+func VerifC16StartCapture() {
+	verifC16.Lock()
+	already := verifC16.capture
+	verifC16.capture = true
+	verifC16.Unlock()
+	if already {
+		return
+	}
+	go func() {
+		for u := range clientMessageChan {
+			text := "!marshal-error"
+			if b, err := json.Marshal(u.state); err == nil {
+				text = string(b)
+			}
+			verifC16.Lock()
+			verifC16.captured = append(verifC16.captured, [2]string{u.tag, text})
+			verifC16.Unlock()
+		}
+	}()
+}
+
+// VerifC16Captured returns the updates captured so far.
+func VerifC16Captured() [][2]string {
+	verifC16.Lock()
+	defer verifC16.Unlock()
+	return append([][2]string(nil), verifC16.captured...)
+}
